@@ -183,6 +183,64 @@ theorem breakOn_first (q : Char) {a : Str} (r : Str) (h : q ∉ a) :
     have hys : q ∉ ys := fun e => h (List.mem_cons_of_mem _ e)
     simp [breakOn, startsWith, hy, ih hys]
 
+theorem before_append_of_mem {x : Char} {P : Str} (S : Str) (h : x ∈ P) :
+    before x (P ++ S) = before x P := by
+  induction P with
+  | nil => simp at h
+  | cons y ys ih =>
+    by_cases hy : y = x
+    · simp [before, hy]
+    · have : x ∈ ys := by
+        rcases List.mem_cons.mp h with e | e
+        · exact absurd e.symm hy
+        · exact e
+      simp [before, hy, ih this]
+
+/-- what precedes the first `x` of a prefix also precedes the first `x` of the whole -/
+theorem mem_before_prefix {x c : Char} {P : Str} (S : Str) (h : c ∈ before x P) :
+    c ∈ before x (P ++ S) := by
+  by_cases hx : x ∈ P
+  · rw [before_append_of_mem _ hx]; exact h
+  · rw [before_append_left _ hx]
+    exact List.mem_append_left _ (mem_before h)
+
+theorem mem_before_append {x c : Char} {A B : Str} (h : c ∈ before x (A ++ B)) :
+    c ∈ A ∨ c ∈ before x B := by
+  by_cases hx : x ∈ A
+  · rw [before_append_of_mem _ hx] at h; exact Or.inl (mem_before h)
+  · rw [before_append_left _ hx] at h; exact List.mem_append.mp h
+
+theorem lstripWs_decomp (s : Str) : ∃ ws, s = ws ++ lstripWs s := by
+  induction s with
+  | nil => exact ⟨[], rfl⟩
+  | cons y ys ih =>
+    by_cases hy : isSpace y = true
+    · obtain ⟨ws, hws⟩ := ih
+      refine ⟨y :: ws, ?_⟩
+      simp only [lstripWs, hy, ↓reduceIte, List.cons_append]
+      rw [← hws]
+    · exact ⟨[], by simp [lstripWs, hy]⟩
+
+theorem rstripWs_decomp (s : Str) : ∃ ws, s = rstripWs s ++ ws := by
+  obtain ⟨ws, hws⟩ := lstripWs_decomp s.reverse
+  refine ⟨ws.reverse, ?_⟩
+  have := congrArg List.reverse hws
+  simpa [rstripWs] using this
+
+theorem mem_before_rstripWs {x c : Char} {Z : Str} (h : c ∈ before x (rstripWs Z)) : c ∈ before x Z := by
+  obtain ⟨ws, hws⟩ := rstripWs_decomp Z
+  have := mem_before_prefix ws h
+  rwa [← hws] at this
+
+theorem breakOn_skip_prefix (o : Char) {A : Str} (w : Str) (h : o ∉ A) (hw : breakOn [o, o, o] w = none) :
+    breakOn [o, o, o] (A ++ w) = none := by
+  induction A with
+  | nil => simpa using hw
+  | cons y ys ih =>
+    have hy : y ≠ o := fun e => h (by simp [e])
+    have hys : o ∉ ys := fun e => h (List.mem_cons_of_mem _ e)
+    simp [breakOn, startsWith, hy, ih hys]
+
 /-! ### the field-definition classifier -/
 
 theorem cfd_no_colon {l : Str} (h : ':' ∉ before '#' l) : containsFieldDef l = false := by
@@ -191,6 +249,34 @@ theorem cfd_no_colon {l : Str} (h : ':' ∉ before '#' l) : containsFieldDef l =
 
 theorem cfd_no_colon' {l : Str} (h : ':' ∉ l) : containsFieldDef l = false :=
   cfd_no_colon (fun hc => h (mem_before hc))
+
+/-- a line whose first non-blank character cannot start an identifier (a quote, `#`, `)`, …) is
+    not a field definition, whatever follows -/
+theorem cfd_nonident_start {ws : Str} (c : Char) (rest : Str) (hws : allSpace ws)
+    (hs : isSpace c = false) (hi : isIdStart c = false) (h1 : c ≠ '#') (h2 : c ≠ '=') (h3 : c ≠ ':') :
+    containsFieldDef (ws ++ c :: rest) = false := by
+  have hsp : ∀ x : Char, isSpace x = false → x ∉ ws := by
+    intro x hx hc; rw [hws x hc] at hx; cases hx
+  have key : ∀ (x : Char), isSpace x = false → x ≠ c → ∀ r : Str, before x (ws ++ c :: r) = ws ++ c :: before x r := by
+    intro x hx hxc r
+    rw [before_append_left _ (hsp x hx)]
+    simp [before, Ne.symm hxc]
+  have hfn : ∀ r : Str, isIdentifier (stripWs (ws ++ c :: r)) = false := by
+    intro r
+    rw [stripWs_eq, lstripWs_space _ hws, lstripWs_cons _ hs]
+    have := rstripWs_mid [] r hs
+    simp only [List.nil_append] at this
+    rw [this]
+    simp [isIdentifier, hi]
+  unfold containsFieldDef
+  simp only [key '#' (by decide) (Ne.symm h1)]
+  split
+  · rfl
+  · split
+    · simp only [key '=' (by decide) (Ne.symm h2), key ':' (by decide) (Ne.symm h3), hfn]
+      split <;> simp
+    · simp only [key ':' (by decide) (Ne.symm h3), hfn]
+      split <;> simp
 
 theorem before_prefix {x : Char} {P : Str} (Z : Str) (hP : x ∉ P) (hx : x ≠ ':') :
     before x (P ++ ':' :: Z) = P ++ ':' :: before x Z := by
@@ -203,8 +289,8 @@ theorem before_prefix {x : Char} {P : Str} (Z : Str) (hP : x ∉ P) (hx : x ≠ 
   simpa [List.append_assoc] using this
 
 /-- a line `<blanks><identifier>:<rest without ':'>` is a field definition -/
-theorem cfd_def {ws n Z : Str} (hws : allSpace ws) (hn : isIdentifier n = true) (hZ : ':' ∉ Z) :
-    containsFieldDef (ws ++ n ++ ':' :: Z) = true := by
+theorem cfd_def {ws n Z : Str} (hws : allSpace ws) (hn : isIdentifier n = true)
+    (hZ1 : ':' ∉ before '#' Z) : containsFieldDef (ws ++ n ++ ':' :: Z) = true := by
   obtain ⟨hnc, hnh, hne⟩ := ident_not_mem hn
   have hsp : ∀ x : Char, isSpace x = false → x ∉ ws := by
     intro x hx hc; rw [hws x hc] at hx; cases hx
@@ -216,7 +302,6 @@ theorem cfd_def {ws n Z : Str} (hws : allSpace ws) (hn : isIdentifier n = true) 
   have hPc : ':' ∉ ws ++ n := hP ':' (by decide) hnc
   have hPh : '#' ∉ ws ++ n := hP '#' (by decide) hnh
   have hPe : '=' ∉ ws ++ n := hP '=' (by decide) hne
-  have hZ1 : ':' ∉ before '#' Z := fun hc => hZ (mem_before hc)
   have hZ2 : ':' ∉ before '=' (before '#' Z) := fun hc => hZ1 (mem_before hc)
   have hstrip : stripWs (ws ++ n) = n := by rw [stripWs_space_left _ hws, ident_strip hn]
   have hnn : n ≠ [] := ident_ne_nil hn
@@ -233,7 +318,7 @@ theorem cfd_def {ws n Z : Str} (hws : allSpace ws) (hn : isIdentifier n = true) 
 
 /-- exact identifier comparison: such a line defines `m` iff `m` is the identifier written there -/
 theorem lineDefines_def {ws n Z : Str} (m : Str) (hws : allSpace ws) (hn : isIdentifier n = true)
-    (hZ : ':' ∉ Z) : lineDefines (ws ++ n ++ ':' :: Z) m = (n == m) := by
+    (hZ' : ':' ∉ before '#' (rstripWs Z)) : lineDefines (ws ++ n ++ ':' :: Z) m = (n == m) := by
   obtain ⟨hnc, _, _⟩ := ident_not_mem hn
   have hstrip : stripWs (ws ++ n ++ ':' :: Z) = n ++ ':' :: rstripWs Z := by
     rw [stripWs_eq, List.append_assoc, lstripWs_space _ hws]
@@ -242,7 +327,6 @@ theorem lineDefines_def {ws n Z : Str} (m : Str) (hws : allSpace ws) (hn : isIde
     | cons c cs =>
       have hc : isSpace c = false := (ident_chars hn c (by simp)).1
       rw [List.cons_append, lstripWs_cons _ hc, ← List.cons_append, rstripWs_mid _ _ (by decide)]
-  have hZ' : ':' ∉ rstripWs Z := fun hc => hZ (mem_rstripWs hc)
   have hcfd : containsFieldDef (n ++ ':' :: rstripWs Z) = true := by
     have := cfd_def (ws := []) (fun _ h => by simp at h) hn hZ'
     simpa using this
@@ -252,44 +336,40 @@ theorem lineDefines_def {ws n Z : Str} (m : Str) (hws : allSpace ws) (hn : isIde
 
 /-! ### well-formed blocks, unpacked -/
 
-def DocText (m : Str) : Prop := '"' ∉ m ∧ '\'' ∉ m ∧ ':' ∉ m
-
 structure WF (b : Block) : Prop where
   name : isIdentifier b.name = true
   tailC : ':' ∉ b.tail
   tailOk : tailOk b.tail = true
-  inl : ∀ m, b.inline = some m → ':' ∉ m
-  above : ∀ m ∈ b.above, '"' ∉ m ∧ '\'' ∉ m
+  above : ∀ m ∈ b.above, hasTriple (commentLine m) = false
   below : match b.below with
     | .none => True
-    | .one _ m => DocText m
-    | .multi _ f r => DocText f ∧ ∀ m ∈ r, DocText m
-
-theorem docText_of {m : Str} (h : docText m = true) : DocText m := by
-  simp only [docText, quoteFree, Bool.and_eq_true, Bool.not_eq_eq_eq_not, Bool.not_true,
-    contains_false_iff] at h
-  exact ⟨h.1.1, h.1.2, h.2⟩
+    | .one q m => q.ch ∉ m ∧ breakOn q.other.tok (m ++ q.tok) = none
+    | .multi q f r => q.ch ∉ f ∧ breakOn q.other.tok f = none ∧
+        ∀ m ∈ r, q.ch ∉ m ∧ containsFieldDef (indent ++ m) = false
 
 theorem wf_of {b : Block} (h : b.wf = true) : WF b := by
-  simp only [Block.wf, Bool.and_eq_true, Bool.not_eq_eq_eq_not, Bool.not_true, contains_false_iff,
-    List.all_eq_true] at h
+  simp only [Block.wf, Block.wfLoose, Block.docLooksLikeDef, Bool.and_eq_true, Bool.not_eq_eq_eq_not,
+    Bool.not_true, contains_false_iff, List.all_eq_true] at h
   obtain ⟨⟨⟨⟨⟨h1, h2⟩, h3⟩, h4⟩, h5⟩, h6⟩ := h
-  refine ⟨h1, h2, h3, ?_, ?_, ?_⟩
+  refine ⟨h1, h2, h3, ?_, ?_⟩
   · intro m hm
-    rw [hm] at h4
-    simpa [contains_false_iff] using h4
-  · intro m hm
-    have := h5 m hm
-    simp only [quoteFree, Bool.and_eq_true, Bool.not_eq_eq_eq_not, Bool.not_true,
-      contains_false_iff] at this
-    exact this
+    have := h4 m hm
+    simpa [aboveOk] using this
   · cases hb : b.below with
     | none => trivial
-    | one q m => rw [hb] at h6; exact docText_of h6
+    | one q m =>
+      rw [hb] at h5
+      simp only [docLineOk, openOk, Bool.and_eq_true, Bool.not_eq_eq_eq_not, Bool.not_true,
+        contains_false_iff, Option.isNone_iff_eq_none] at h5
+      exact h5
     | multi q f r =>
-      rw [hb] at h6
-      simp only [Bool.and_eq_true, List.all_eq_true] at h6
-      exact ⟨docText_of h6.1, fun m hm => docText_of (h6.2 m hm)⟩
+      rw [hb] at h5 h6
+      simp only [docLineOk, openOk, Bool.and_eq_true, Bool.not_eq_eq_eq_not, Bool.not_true,
+        contains_false_iff, Option.isNone_iff_eq_none, List.all_eq_true] at h5
+      simp only [List.any_eq_false, looksLikeDef] at h6
+      refine ⟨h5.1.1, h5.1.2, fun m hm => ⟨h5.2 m hm, ?_⟩⟩
+      have := h6 m hm
+      simpa using this
 
 /-! ### facts about rendered lines -/
 
@@ -303,28 +383,16 @@ theorem blank_facts : containsFieldDef [] = false ∧ hasTriple [] = false ∧ i
 
 theorem isStop_blank : isStop [] = false := by decide
 
-theorem comment_facts {m : Str} (h : '"' ∉ m ∧ '\'' ∉ m) :
+theorem comment_facts {m : Str} (h : hasTriple (commentLine m) = false) :
     containsFieldDef (commentLine m) = false ∧ hasTriple (commentLine m) = false ∧
     isEmptyLine (commentLine m) = false ∧ isComment (commentLine m) = true ∧
     commentAt (commentLine m) = stripWs m := by
   have hi : '#' ∉ indent := not_mem_indent (by decide)
-  refine ⟨?_, ?_, ?_, ?_, ?_⟩
+  refine ⟨?_, h, ?_, ?_, ?_⟩
   · apply cfd_no_colon
     unfold commentLine
     rw [before_stop _ hi]
     exact not_mem_indent (by decide)
-  · unfold hasTriple commentLine
-    have h1 : '"' ∉ indent ++ '#' :: ' ' :: m := by
-      intro hc
-      rcases List.mem_append.mp hc with e | e
-      · exact not_mem_indent (by decide) e
-      · simp at e; exact h.1 e
-    have h2 : '\'' ∉ indent ++ '#' :: ' ' :: m := by
-      intro hc
-      rcases List.mem_append.mp hc with e | e
-      · exact not_mem_indent (by decide) e
-      · simp at e; exact h.2 e
-    simp [tripleDouble, tripleSingle, breakOn_absent _ h1, breakOn_absent _ h2]
   · unfold isEmptyLine commentLine
     rw [lstripWs_space _ indent_allSpace, lstripWs_cons _ (by decide)]; rfl
   · unfold isComment commentLine
@@ -341,7 +409,7 @@ theorem isHeaderLine_comment (m : Str) : isHeaderLine (commentLine m) = false :=
   rw [lstripWs_space _ indent_allSpace, lstripWs_cons _ (by decide)]
   simp [startsWith]
 
-theorem isStop_comment {m : Str} (h : '"' ∉ m ∧ '\'' ∉ m) : isStop (commentLine m) = false := by
+theorem isStop_comment {m : Str} (h : hasTriple (commentLine m) = false) : isStop (commentLine m) = false := by
   have := comment_facts h
   simp [isStop, this.1, this.2.1, isHeaderLine_comment]
 
@@ -355,22 +423,22 @@ theorem defLine_eq (b : Block) : defLine b = indent ++ b.name ++ ':' :: (b.tail 
   unfold defLine inlPart
   cases b.inline <;> simp [List.append_assoc]
 
-theorem def_rest_no_colon {b : Block} (h : WF b) : ':' ∉ b.tail ++ inlPart b := by
-  intro hc
-  rcases List.mem_append.mp hc with e | e
-  · exact h.tailC e
-  · unfold inlPart at e
-    cases hi : b.inline with
-    | none => rw [hi] at e; simp at e
-    | some m =>
-      rw [hi] at e
-      simp only [List.mem_cons] at e
-      rcases e with e | e | e | e | e
-      · cases e
-      · cases e
-      · cases e
-      · cases e
-      · exact h.inl m hi e
+theorem before_inlPart (b : Block) : ':' ∉ before '#' (inlPart b) := by
+  unfold inlPart
+  cases b.inline with
+  | none => simp [before]
+  | some m => simp [before]
+
+/-- the part of a definition line before its comment has no second `:` — whatever the inline
+    comment says -/
+theorem def_rest_ok {b : Block} (h : WF b) :
+    ':' ∉ before '#' (b.tail ++ inlPart b) ∧ ':' ∉ before '#' (rstripWs (b.tail ++ inlPart b)) := by
+  have h1 : ':' ∉ before '#' (b.tail ++ inlPart b) := by
+    intro hc
+    rcases mem_before_append hc with e | e
+    · exact h.tailC e
+    · exact before_inlPart b e
+  exact ⟨h1, fun hc => h1 (mem_before_rstripWs hc)⟩
 
 /-! ### the inline comment: first `#` outside a string literal -/
 
@@ -494,40 +562,44 @@ theorem def_facts {b : Block} (h : WF b) :
     containsFieldDef (defLine b) = true ∧ (∀ n, lineDefines (defLine b) n = (b.name == n)) ∧
     inlineComment (defLine b) = b.doc.inline := by
   refine ⟨?_, ?_, inline_def h⟩
-  · rw [defLine_eq]; exact cfd_def indent_allSpace h.name (def_rest_no_colon h)
-  · intro n; rw [defLine_eq]; exact lineDefines_def n indent_allSpace h.name (def_rest_no_colon h)
+  · rw [defLine_eq]; exact cfd_def indent_allSpace h.name (def_rest_ok h).1
+  · intro n; rw [defLine_eq]; exact lineDefines_def n indent_allSpace h.name (def_rest_ok h).2
 
 theorem isStop_def {b : Block} (h : WF b) : isStop (defLine b) = true := by
   simp [isStop, (def_facts h).1]
 
-/-- a line made of the indent, quote characters and docstring text is not a field definition -/
+theorem quote_props (q : Quote) : isSpace q.ch = false ∧ isIdStart q.ch = false ∧ q.ch ≠ '#' ∧ q.ch ≠ '=' ∧ q.ch ≠ ':' := by
+  cases q <;> decide
+
+/-- a line that starts (after the indent) with a triple quote is not a field definition, whatever
+    text follows -/
+theorem cfd_tok_line (q : Quote) (w : Str) : containsFieldDef (indent ++ q.tok ++ w) = false := by
+  obtain ⟨h1, h2, h3, h4, h5⟩ := quote_props q
+  have e : indent ++ q.tok ++ w = indent ++ q.ch :: (q.ch :: q.ch :: w) := by
+    rw [tok_eq]; simp [List.append_assoc]
+  rw [e]
+  exact cfd_nonident_start q.ch _ indent_allSpace h1 h2 h3 h4 h5
+
 theorem below_no_def {b : Block} (h : WF b) : ∀ l ∈ belowLines b.below, containsFieldDef l = false := by
-  have hi : ':' ∉ indent := not_mem_indent (by decide)
-  have ht : ∀ q : Quote, ':' ∉ q.tok := by intro q; cases q <;> decide
   have hw := h.below
   intro l hl
-  apply cfd_no_colon'
   cases hb : b.below with
   | none => rw [hb] at hl; simp [belowLines] at hl
   | one q m =>
-    rw [hb] at hl hw
+    rw [hb] at hl
     simp only [belowLines, List.mem_singleton] at hl
     subst hl
-    simp only [List.mem_append, not_or]
-    exact ⟨⟨⟨hi, ht q⟩, hw.2.2⟩, ht q⟩
+    rw [List.append_assoc]
+    exact cfd_tok_line q _
   | multi q f r =>
     rw [hb] at hl hw
     simp only [belowLines, List.cons_append, List.mem_cons, List.mem_append, List.mem_map,
       List.mem_nil_iff, or_false] at hl
     rcases hl with e | ⟨m, hm, e⟩ | e
+    · subst e; exact cfd_tok_line q f
+    · subst e; exact (hw.2.2 m hm).2
     · subst e
-      simp only [List.mem_append, not_or]
-      exact ⟨⟨hi, ht q⟩, hw.1.2.2⟩
-    · subst e
-      simp only [List.mem_append, not_or]
-      exact ⟨hi, (hw.2 m hm).2.2⟩
-    · subst e
-      simp only [List.mem_append, not_or]
-      exact ⟨hi, ht q⟩
+      have := cfd_tok_line q []
+      simpa using this
 
 end SpVerif.DocScan
